@@ -142,6 +142,10 @@ int main(int argc, char** argv)
     zoo(g, "range2^17", range_engine<0, 131071>(s), thorough);
     zoo(g, "range2^31-2", range_engine<1, 2147483646>(s), thorough);
     zoo(g, "range2^48", range_engine<0, 281474976710655ULL>(s), thorough);
+    // ranges that start far from zero: what counts is the number of values, max - min + 1 (2^16, 3 and 2^32 of them)
+    zoo(g, "shift2^31+2^16", range_engine<2147483648ULL, 2147549183ULL>(s), thorough);
+    zoo(g, "shift10^6+3", range_engine<1000000, 1000002>(s), thorough);
+    zoo(g, "shift2^40+2^32", range_engine<1099511627776ULL, 1103806595071ULL>(s), thorough);
     out().close();
     return 0;
 }
